@@ -185,7 +185,7 @@ func TestC30(t *testing.T) {
 		run(&lc)
 		return
 	}
-	n := env.Pick(60, 900) / env.NBatch
+	n := env.Pick(240, 2400) / env.NBatch
 	for i := 0; i < n; i++ {
 		topo := sim.GenTopology(r, true)
 		lc := &lambdaCase{Topology: topo, Count: 1 + r.Intn(4), Res: sim.GenRes(r), ExitCode: int64([]int{0, 0, 1, 2, 137}[r.Intn(5)]), Lines: r.Intn(4)}
